@@ -31,6 +31,8 @@ Three families of cases on the REAL FileStorage (DESIGN 4 C08):
               afterwards must load them (MVCCMappingStorage, MappingStorage, FileStorage; deterministic).
  (c') blobfault — OSError at every raw operation of a pack of a storage WITH blobs, then a pack to an
               earlier time that tags nothing: every blob record still in Data.fs keeps its file.
+ (h) oldsnapshot — deterministic: a connection holds an object as a ghost, newer revisions are committed,
+              db.pack(now) completes, the ghost is loaded: ReadConflictError or a correct read, nothing else.
  (g) close  — packer ∥ committer ∥ a thread closing the DB at a schedule-chosen moment; ORACLE-ONLY on the files
               left behind (reopen holds every returned commit, index/log agree, commit + pack work); what the
               threads answer after the close is counted, not judged.
@@ -2666,6 +2668,85 @@ def gen_close_params(rng, i):
 
 
 # ------------------------------------------------------------------------------------------------
+# (h) a reader whose snapshot is older than the pack time, after the pack COMPLETED (deterministic)
+# ------------------------------------------------------------------------------------------------
+def run_old_snapshot_reader(P, tmp):
+    """connection c1 begins and holds object B only as a ghost; another connection commits newer revisions
+    of B; db.pack(now) completes (B's revision of c1's snapshot is packed away); then c1 loads the ghost:
+    a retryable ReadConflictError (or a correct read of its snapshot) — never another error"""
+    kind = P.get('kind', 'file')
+    d = None
+    problems = []
+    with clock.scripted() as clk:
+        if kind == 'mapping':
+            from ZODB.MappingStorage import MappingStorage
+            db = ZODB.DB(MappingStorage())
+        else:
+            import tempfile
+            d = tempfile.mkdtemp(prefix='c08h-', dir=tmp)
+            fs, db = open_storage(os.path.join(d, 'Data.fs'), P)
+        try:
+            tm0 = transaction.TransactionManager()
+            c0 = db.open(tm0)
+            r = c0.root()
+            r['A'], r['B'] = mk_pair(1, 1), mk_pair(1, 1)
+            tm0.commit()
+            tm1 = transaction.TransactionManager()
+            c1 = db.open(tm1)
+            tm1.begin()
+            a = c1.root()['A']['v']             # loads root and A; B stays a ghost in c1
+            ghost = c1.root()['B']
+            for i in range(P.get('newer', 2)):
+                r['B']['v'] = 10 + i
+                r['B']['seq'] = 10 + i
+                tm0.commit()
+            if P.get('close_writer'):
+                c0.close()
+            db.pack(clk.now + 0.5)              # completes; B's first revision is superseded at the pack time
+            try:
+                got = (ghost['v'], ghost['seq'])
+                if got != (1, 1) or a != 1:
+                    problems.append(('wrong-data', 'a snapshot older than the pack time read B = %r (its snapshot '
+                                     'holds (1, 1))' % (got,)))
+                outcome = 'read'
+            except ReadConflictError:
+                outcome = 'ReadConflictError'
+            except Exception as e:              # noqa: B902
+                outcome = type(e).__name__
+                problems.append(('reader-error:%s' % type(e).__name__, 'a reader whose snapshot is older than the '
+                                 'pack time loaded a ghost after the pack completed and got %s instead of a '
+                                 'retryable ReadConflictError: %s' % (type(e).__name__, e)))
+            tm1.abort()
+            tm1.begin()                         # the retry sees the current state
+            try:
+                if c1.root()['B']['v'] != 10 + P.get('newer', 2) - 1:
+                    problems.append(('wrong-data', 'the retry after the conflict does not see the newest revision'))
+            except Exception as e:              # noqa: B902
+                problems.append(('retry-error:%s' % type(e).__name__, 'the retried transaction raised %r' % (e,)))
+            tm1.abort()
+            c1.close()
+        except Exception as e:                  # noqa: B902
+            outcome = 'escaped'
+            problems.append(('escaped:%s' % type(e).__name__, repr(e)))
+        finally:
+            try:
+                db.close()
+            except Exception:                   # noqa: B902
+                pass
+            if d:
+                shutil.rmtree(d, ignore_errors=True)
+    return outcome, problems
+
+
+def run_old_snapshot_case(ck, case):
+    outcome, pr = run_old_snapshot_reader(case['P'], ck.tmp)
+    ck.case(dict(kind='oldsnapshot', P=case['P']), True, sample=dict(kind='oldsnapshot', P=case['P'], outcome=outcome))
+    ck.count('old-snapshot-reader:%s' % outcome)
+    if pr:
+        ck.violation('C08:old-snapshot-reader:%s' % pr[0][0], pr[0][1], case)
+
+
+# ------------------------------------------------------------------------------------------------
 # generators
 # ------------------------------------------------------------------------------------------------
 def gen_sched_params(rng, i):
@@ -3094,6 +3175,8 @@ def _run_case(ck, case):
         run_prepack_case(ck, case)
     elif kind == 'close':
         run_close_family(ck, case)
+    elif kind == 'oldsnapshot':
+        run_old_snapshot_case(ck, case)
     elif kind == 'blobfault':
         run_blob_fault_scenario(ck, case['P'], only=case.get('fail_at'))
     else:
@@ -3140,6 +3223,10 @@ def main(argv=None):
                   for ko in (True, False) for g in ((0, 1) if ck.thorough else (ko,))]
         cases += [dict(kind='prepack', P=dict(kind=kd, pre=pre, after=2, close_first=cf))
                   for kd in ('mvccmapping', 'mapping', 'file') for pre in (1, 3) for cf in (0, 1)]
+        cases += [dict(kind='oldsnapshot', P=dict(kind=kd, newer=nw, close_writer=cw, ctor=ct, hex=hx))
+                  for kd, ct, hx in (('file', 'direct', 0), ('file', 'config', 0), ('file', 'direct', 1),
+                                     ('mapping', 'direct', 0))
+                  for nw in (1, 2) for cw in (0, 1)]
         cases += [dict(kind='close', P=gen_close_params(ck.rng, i)) for i in range(12 if not ck.thorough else 400)]
         nmap = 40 if not ck.thorough else 1500
         cases += [dict(kind='mapping', P=gen_mapping_params(ck.rng, i)) for i in range(nmap)]
